@@ -976,7 +976,11 @@ static void build_expr(WorkList *list, ASTNode *expr, Environment *env) {
                                                         (op == TOKEN_STAR) ? "*" :
                                                         (op == TOKEN_SLASH) ? "/" :
                                                         "%";
-                                    emit_formatted(list, "dyn_array_push_%s(_out, _x %s _y); ", push_suffix, op_str);
+                                    if (elem == TYPE_INT && (op == TOKEN_SLASH || op == TOKEN_PERCENT)) {
+                                        emit_formatted(list, "dyn_array_push_int(_out, %s(_x, _y)); ", op == TOKEN_SLASH ? "nl_div_int" : "nl_mod_int");
+                                    } else {
+                                        emit_formatted(list, "dyn_array_push_%s(_out, _x %s _y); ", push_suffix, op_str);
+                                    }
                                 }
                                 emit_literal(list, "} _out; })");
                             } else {
@@ -1023,7 +1027,10 @@ static void build_expr(WorkList *list, ASTNode *expr, Environment *env) {
                                     emit_literal(list, "assert(false && \"string arrays only support +\"); ");
                                 }
                             } else {
-                                if (left_is_array) {
+                                if (elem == TYPE_INT && (op == TOKEN_SLASH || op == TOKEN_PERCENT)) {
+                                    emit_formatted(list, "dyn_array_push_int(_out, %s(%s)); ", op == TOKEN_SLASH ? "nl_div_int" : "nl_mod_int",
+                                                   left_is_array ? "_x, _s" : "_s, _x");
+                                } else if (left_is_array) {
                                     emit_formatted(list, "dyn_array_push_%s(_out, _x %s _s); ", push_suffix, op_str);
                                 } else {
                                     emit_formatted(list, "dyn_array_push_%s(_out, _s %s _x); ", push_suffix, op_str);
@@ -1045,6 +1052,19 @@ static void build_expr(WorkList *list, ASTNode *expr, Environment *env) {
                                 emit_literal(list, ", _a); })");
                             }
                         }
+                        break;
+                    }
+
+                    /* int / and %: INT64_MIN / -1 wraps like the other operators (the C operators trap);
+                     * a literal divisor other than -1 cannot meet the case */
+                    ASTNode *divisor = expr->as.prefix_op.args[1];
+                    if ((op == TOKEN_SLASH || op == TOKEN_PERCENT) && t1 == TYPE_INT && t2 == TYPE_INT &&
+                        !(divisor->type == AST_NUMBER && divisor->as.number != -1)) {
+                        emit_literal(list, op == TOKEN_SLASH ? "nl_div_int(" : "nl_mod_int(");
+                        build_expr(list, expr->as.prefix_op.args[0], env);
+                        emit_literal(list, ", ");
+                        build_expr(list, divisor, env);
+                        emit_literal(list, ")");
                         break;
                     }
                 }
